@@ -68,23 +68,26 @@ def Next.st : Next → St
   | .stop s => s
   | .cont s _ => s
 
-inductive Step (c : Cfg) (close : Option Nat) (hz : Nat) (s : St) (arr : List (Nat × Nat)) : Next → Prop
-  | done : s.done = true → Step c close hz s arr (.stop s)
+/-- One iteration under the choice number `n`. Any case that is ready at the instant `t` (the minimum of
+    the candidate instants, so a ready case is due exactly at `t`) may fire: the constructors carry no
+    priority side-condition, only the fact that `select` picked that case (`pick … n = some k`). -/
+inductive Step (c : Cfg) (close : Option Nat) (hz : Nat) (n : Nat) (s : St) (arr : List (Nat × Nat)) : Next → Prop
+  | done : s.done = true → Step c close hz n s arr (.stop s)
   | idle : s.done = false → s.discDue = none → s.hbDue = none → arr = [] → close = none →
-      Step c close hz s arr (.stop s)
-  | horizon (t : Nat) : s.done = false → IsNext close s arr t → hz < t → Step c close hz s arr (.stop s)
+      Step c close hz n s arr (.stop s)
+  | horizon (t : Nat) : s.done = false → IsNext close s arr t → hz < t → Step c close hz n s arr (.stop s)
   | close (t : Nat) : s.done = false → IsNext close s arr t → t ≤ hz → close = some t →
-      Step c close hz s arr (.stop { s with trace := (t, .clientClose) :: s.trace, done := true })
-  | disc (t : Nat) : s.done = false → IsNext close s arr t → t ≤ hz → (∀ x, close = some x → t < x) →
-      s.discDue = some t →
-      Step c close hz s arr (.stop { s with trace := (t, .selfClose) :: s.trace, done := true })
-  | hb (t : Nat) : s.done = false → IsNext close s arr t → t ≤ hz → (∀ x, close = some x → t < x) →
-      (∀ x, s.discDue = some x → t < x) → s.hbDue = some t →
-      Step c close hz s arr (.cont (s.write c t .comment true) arr)
+      pick (ready close s arr t) n = some .close →
+      Step c close hz n s arr (.stop { s with trace := (t, .clientClose) :: s.trace, done := true })
+  | disc (t : Nat) : s.done = false → IsNext close s arr t → t ≤ hz → s.discDue = some t →
+      pick (ready close s arr t) n = some .disc →
+      Step c close hz n s arr (.stop { s with trace := (t, .selfClose) :: s.trace, done := true })
+  | hb (t : Nat) : s.done = false → IsNext close s arr t → t ≤ hz → s.hbDue = some t →
+      pick (ready close s arr t) n = some .hb →
+      Step c close hz n s arr (.cont (s.write c t .comment true) arr)
   | arr (t id : Nat) (rest : List (Nat × Nat)) : s.done = false → IsNext close s arr t → t ≤ hz →
-      (∀ x, close = some x → t < x) → (∀ x, s.discDue = some x → t < x) → (∀ x, s.hbDue = some x → t < x) →
-      arr = (t, id) :: rest →
-      Step c close hz s arr (.cont (s.write c t (.event id) true) rest)
+      arr = (t, id) :: rest → pick (ready close s arr t) n = some .arr →
+      Step c close hz n s arr (.cont (s.write c t (.event id) true) rest)
 
 theorem optLe_true {a : Option Nat} {t : Nat} : optLe a t = true ↔ ∃ x, a = some x ∧ x ≤ t := by
   cases a <;> simp [optLe]
@@ -92,15 +95,69 @@ theorem optLe_true {a : Option Nat} {t : Nat} : optLe a t = true ↔ ∃ x, a = 
 theorem optLe_false {a : Option Nat} {t : Nat} (h : ¬ optLe a t = true) : ∀ x, a = some x → t < x := by
   intro x hx; subst hx; simp [optLe] at h; exact h
 
+theorem arrReady_true {arr : List (Nat × Nat)} {t : Nat} :
+    arrReady arr t = true ↔ ∃ ta id rest, arr = (ta, id) :: rest ∧ ta ≤ t := by
+  cases arr with
+  | nil => simp [arrReady]
+  | cons a rest => obtain ⟨ta, id⟩ := a; simp [arrReady]
+
 theorem mem_cands {s : St} {arr : List (Nat × Nat)} {close : Option Nat} {x : Nat} :
     x ∈ (s.discDue.toList ++ s.hbDue.toList ++ (arr.head?.map (·.1)).toList ++ close.toList) ↔
       s.discDue = some x ∨ s.hbDue = some x ∨ (∃ a rest, arr = a :: rest ∧ x = a.1) ∨ close = some x := by
   cases arr <;> simp [Option.mem_toList]
 
-theorem loop_succ (c : Cfg) (close : Option Nat) (hz fuel : Nat) (s : St) (arr : List (Nat × Nat)) :
-    ∃ n, Step c close hz s arr n ∧
-      loop c close hz (fuel + 1) s arr =
-        (match n with | .stop s' => s' | .cont s' arr' => loop c close hz fuel s' arr') := by
+theorem nextInstant_eq (close : Option Nat) (s : St) (arr : List (Nat × Nat)) :
+    nextInstant close s arr =
+      minOf (s.discDue.toList ++ s.hbDue.toList ++ (arr.head?.map (·.1)).toList ++ close.toList) := rfl
+
+/-! ### `pick` and `ready` -/
+
+theorem pick_none {ks : List Kind} {n : Nat} (h : pick ks n = none) : ks = [] := by
+  unfold pick at h
+  by_cases h0 : ks.length = 0
+  · exact List.eq_nil_of_length_eq_zero h0
+  · simp only [h0, if_false] at h
+    have h1 := Nat.mod_lt n (Nat.pos_of_ne_zero h0)
+    rw [List.getElem?_eq_none_iff] at h
+    omega
+
+theorem pick_mem {ks : List Kind} {n : Nat} {k : Kind} (h : pick ks n = some k) : k ∈ ks := by
+  unfold pick at h
+  split at h
+  · cases h
+  · exact List.mem_of_getElem? h
+
+theorem pick_of_mem {ks : List Kind} {k : Kind} (h : k ∈ ks) : ∃ n, pick ks n = some k := by
+  obtain ⟨i, hi, he⟩ := List.getElem_of_mem h
+  refine ⟨i, ?_⟩
+  unfold pick
+  have h0 : ks.length ≠ 0 := by omega
+  simp only [h0, if_false, Nat.mod_eq_of_lt hi]
+  rw [List.getElem?_eq_getElem hi, he]
+
+theorem mem_ready {close : Option Nat} {s : St} {arr : List (Nat × Nat)} {t : Nat} {k : Kind} :
+    k ∈ ready close s arr t ↔
+      (k = .close ∧ optLe close t = true) ∨ (k = .disc ∧ optLe s.discDue t = true) ∨
+      (k = .hb ∧ optLe s.hbDue t = true) ∨ (k = .arr ∧ arrReady arr t = true) := by
+  unfold ready
+  by_cases h1 : optLe close t = true <;> by_cases h2 : optLe s.discDue t = true <;>
+    by_cases h3 : optLe s.hbDue t = true <;> by_cases h4 : arrReady arr t = true <;> simp [h1, h2, h3, h4]
+
+/-- With choice number 0 and the client not gone, a due disconnection timer wins. -/
+theorem pick_zero_disc {close : Option Nat} {s : St} {arr : List (Nat × Nat)} {t : Nat}
+    (h1 : ¬ optLe close t = true) (h2 : optLe s.discDue t = true) :
+    pick (ready close s arr t) 0 = some .disc := by
+  simp [ready, pick, h1, h2]
+
+theorem loop_zero (c : Cfg) (close : Option Nat) (hz : Nat) (s : St) (arr : List (Nat × Nat)) (ch : List Nat) :
+    loop c close hz 0 s arr ch = s := by
+  rw [loop]
+
+theorem loop_succ (c : Cfg) (close : Option Nat) (hz fuel : Nat) (s : St) (arr : List (Nat × Nat))
+    (ch : List Nat) :
+    ∃ n, Step c close hz (ch.headD 0) s arr n ∧
+      loop c close hz (fuel + 1) s arr ch =
+        (match n with | .stop s' => s' | .cont s' arr' => loop c close hz fuel s' arr' ch.tail) := by
   rw [loop]
   by_cases hd : s.done = true
   · exact ⟨.stop s, .done hd, by simp [hd]⟩
@@ -108,6 +165,7 @@ theorem loop_succ (c : Cfg) (close : Option Nat) (hz fuel : Nat) (s : St) (arr :
   have hd' : s.done = false := by simpa using hd
   split
   · rename_i hm
+    rw [nextInstant_eq] at hm
     have hm' := minOf_none hm
     have h1 : s.discDue = none := by
       cases h : s.discDue with
@@ -132,6 +190,7 @@ theorem loop_succ (c : Cfg) (close : Option Nat) (hz fuel : Nat) (s : St) (arr :
                   simp at this
     exact ⟨.stop s, .idle hd' h1 h2 h3 h4, rfl⟩
   · rename_i t hm
+    rw [nextInstant_eq] at hm
     obtain ⟨hmem, hle⟩ := minOf_some hm
     have hn : IsNext close s arr t :=
       ⟨fun x h => hle x (mem_cands.2 (Or.inl h)),
@@ -142,53 +201,54 @@ theorem loop_succ (c : Cfg) (close : Option Nat) (hz fuel : Nat) (s : St) (arr :
     · exact ⟨.stop s, .horizon t hd' hn hh, by simp [hh]⟩
     have hh' : t ≤ hz := by omega
     simp only [hh, if_false]
-    by_cases hc : optLe close t = true
-    · obtain ⟨x, hx, hxt⟩ := optLe_true.1 hc
-      have : x = t := by have := hn.le_close x hx; omega
-      subst this
-      exact ⟨_, .close x hd' hn hh' hx, by simp [hc]⟩
-    have hc' := optLe_false hc
-    simp only [hc]
-    by_cases hdi : optLe s.discDue t = true
-    · obtain ⟨x, hx, hxt⟩ := optLe_true.1 hdi
-      have : x = t := by have := hn.le_disc x hx; omega
-      subst this
-      exact ⟨_, .disc x hd' hn hh' hc' hx, by simp [hdi]⟩
-    have hdi' := optLe_false hdi
-    simp only [hdi]
-    by_cases hb : optLe s.hbDue t = true
-    · obtain ⟨x, hx, hxt⟩ := optLe_true.1 hb
-      have : x = t := by have := hn.le_hb x hx; omega
-      subst this
-      exact ⟨_, .hb x hd' hn hh' hc' hdi' hx, by simp [hb]⟩
-    have hb' := optLe_false hb
-    simp only [hb]
-    rcases mem_cands.1 hmem with h | h | ⟨a, r, h, ha⟩ | h
-    · exact absurd (hdi' t h) (Nat.lt_irrefl _)
-    · exact absurd (hb' t h) (Nat.lt_irrefl _)
-    · subst h
-      obtain ⟨a1, id⟩ := a
-      simp only at ha
-      subst ha
-      exact ⟨_, .arr _ id r hd' hn hh' hc' hdi' hb' rfl, rfl⟩
-    · exact absurd (hc' t h) (Nat.lt_irrefl _)
+    split
+    · rename_i hp
+      have hr := pick_none hp
+      have hnone : ∀ k, ¬ k ∈ ready close s arr t := by rw [hr]; simp
+      exfalso
+      rcases mem_cands.1 hmem with h | h | ⟨a, r, h, ha⟩ | h
+      · exact hnone .disc (mem_ready.2 (Or.inr (Or.inl ⟨rfl, optLe_true.2 ⟨t, h, Nat.le_refl _⟩⟩)))
+      · exact hnone .hb (mem_ready.2 (Or.inr (Or.inr (Or.inl ⟨rfl, optLe_true.2 ⟨t, h, Nat.le_refl _⟩⟩))))
+      · obtain ⟨a1, id⟩ := a
+        exact hnone .arr (mem_ready.2 (Or.inr (Or.inr (Or.inr
+          ⟨rfl, arrReady_true.2 ⟨a1, id, r, h, by simp at ha; omega⟩⟩))))
+      · exact hnone .close (mem_ready.2 (Or.inl ⟨rfl, optLe_true.2 ⟨t, h, Nat.le_refl _⟩⟩))
+    · rename_i k hp
+      rcases mem_ready.1 (pick_mem hp) with ⟨hk, hr⟩ | ⟨hk, hr⟩ | ⟨hk, hr⟩ | ⟨hk, hr⟩ <;> subst hk
+      · obtain ⟨x, hx, hxt⟩ := optLe_true.1 hr
+        have : x = t := by have := hn.le_close x hx; omega
+        subst this
+        exact ⟨_, .close x hd' hn hh' hx hp, by simp [fire]⟩
+      · obtain ⟨x, hx, hxt⟩ := optLe_true.1 hr
+        have : x = t := by have := hn.le_disc x hx; omega
+        subst this
+        exact ⟨_, .disc x hd' hn hh' hx hp, by simp [fire]⟩
+      · obtain ⟨x, hx, hxt⟩ := optLe_true.1 hr
+        have : x = t := by have := hn.le_hb x hx; omega
+        subst this
+        exact ⟨_, .hb x hd' hn hh' hx hp, by simp [fire]⟩
+      · obtain ⟨ta, id, rest, ha, hta⟩ := arrReady_true.1 hr
+        have : ta = t := by have := hn.le_arr _ _ ha; simp at this; omega
+        subst this
+        subst ha
+        exact ⟨_, .arr ta id rest hd' hn hh' rfl hp, by simp [fire]⟩
 
 /-! ### induction principles -/
 
 theorem loop_safe {c : Cfg} {close : Option Nat} {hz : Nat} (Inv : St → Prop)
-    (hcont : ∀ s arr s' arr', Inv s → Step c close hz s arr (.cont s' arr') → Inv s')
-    (hstop : ∀ s arr s', Inv s → Step c close hz s arr (.stop s') → Inv s') :
-    ∀ fuel s arr, Inv s → Inv (loop c close hz fuel s arr) := by
+    (hcont : ∀ n s arr s' arr', Inv s → Step c close hz n s arr (.cont s' arr') → Inv s')
+    (hstop : ∀ n s arr s', Inv s → Step c close hz n s arr (.stop s') → Inv s') :
+    ∀ fuel s arr ch, Inv s → Inv (loop c close hz fuel s arr ch) := by
   intro fuel
   induction fuel with
-  | zero => intro s arr h; simpa [loop] using h
+  | zero => intro s arr ch h; rw [loop_zero]; exact h
   | succ n ih =>
-    intro s arr h
-    obtain ⟨nx, hs, he⟩ := loop_succ c close hz n s arr
+    intro s arr ch h
+    obtain ⟨nx, hs, he⟩ := loop_succ c close hz n s arr ch
     rw [he]
     cases nx with
-    | stop s' => exact hstop s arr s' h hs
-    | cont s' arr' => exact ih s' arr' (hcont s arr s' arr' h hs)
+    | stop s' => exact hstop _ s arr s' h hs
+    | cont s' arr' => exact ih s' arr' ch.tail (hcont _ s arr s' arr' h hs)
 
 /-! ### writes -/
 
@@ -221,40 +281,40 @@ theorem writeOk_of_no_deadline {c : Cfg} (hd : c.deadline = none) (t : Nat) : wr
   simp [writeOk, hd]
 
 /-- Entries appended by one iteration. -/
-theorem step_forall {c : Cfg} {close : Option Nat} {hz : Nat} (P : Nat × Ev → Prop)
-    {s : St} {arr : List (Nat × Nat)} {n : Next} (hs : Step c close hz s arr n)
+theorem step_forall {c : Cfg} {close : Option Nat} {hz n : Nat} (P : Nat × Ev → Prop)
+    {s : St} {arr : List (Nat × Nat)} {nx : Next} (hs : Step c close hz n s arr nx)
     (h : ∀ p ∈ s.trace, P p) :
     (∀ t, P (t, .clientClose)) → (∀ t, s.discDue = some t → P (t, .selfClose)) →
     (∀ t e, isW e = true → writeOk c t = true → P (t, e)) →
     (∀ t, writeOk c t = false → P (t, .failed) ∧ P (t, .endWrite)) →
-    ∀ p ∈ n.st.trace, P p := by
+    ∀ p ∈ nx.st.trace, P p := by
   intro h1 h2 h3 h4
   cases hs with
   | done _ => exact h
   | idle _ _ _ _ _ => exact h
   | horizon t _ _ _ => exact h
-  | close t _ _ _ _ => simp only [Next.st, List.mem_cons]; rintro p (rfl | hp); exact h1 t; exact h p hp
-  | disc t _ _ _ _ hd => simp only [Next.st, List.mem_cons]; rintro p (rfl | hp); exact h2 t hd; exact h p hp
-  | hb t _ _ _ _ _ _ =>
+  | close t _ _ _ _ _ => simp only [Next.st, List.mem_cons]; rintro p (rfl | hp); exact h1 t; exact h p hp
+  | disc t _ _ _ hd _ => simp only [Next.st, List.mem_cons]; rintro p (rfl | hp); exact h2 t hd; exact h p hp
+  | hb t _ _ _ _ _ =>
     rcases write_cases c s t .comment with ⟨hok, hw⟩ | ⟨hok, hw⟩ <;> simp only [Next.st, hw, List.mem_cons]
     · rintro p (rfl | hp); exact h3 t _ rfl hok; exact h p hp
     · rintro p (rfl | rfl | hp); exact (h4 t hok).2; exact (h4 t hok).1; exact h p hp
-  | arr t id rest _ _ _ _ _ _ _ =>
+  | arr t id rest _ _ _ _ _ =>
     rcases write_cases c s t (.event id) with ⟨hok, hw⟩ | ⟨hok, hw⟩ <;> simp only [Next.st, hw, List.mem_cons]
     · rintro p (rfl | hp); exact h3 t _ rfl hok; exact h p hp
     · rintro p (rfl | rfl | hp); exact (h4 t hok).2; exact (h4 t hok).1; exact h p hp
 
-theorem step_discDue {c : Cfg} {close : Option Nat} {hz : Nat} {s : St} {arr : List (Nat × Nat)} {n : Next}
-    (hs : Step c close hz s arr n) : n.st.discDue = s.discDue := by
+theorem step_discDue {c : Cfg} {close : Option Nat} {hz n : Nat} {s : St} {arr : List (Nat × Nat)} {nx : Next}
+    (hs : Step c close hz n s arr nx) : nx.st.discDue = s.discDue := by
   cases hs with
   | done _ => rfl
   | idle _ _ _ _ _ => rfl
   | horizon t _ _ _ => rfl
-  | close t _ _ _ _ => rfl
+  | close t _ _ _ _ _ => rfl
   | disc t _ _ _ _ _ => rfl
-  | hb t _ _ _ _ _ _ =>
+  | hb t _ _ _ _ _ =>
     rcases write_cases c s t .comment with ⟨_, hw⟩ | ⟨_, hw⟩ <;> simp only [Next.st, hw]
-  | arr t id rest _ _ _ _ _ _ _ =>
+  | arr t id rest _ _ _ _ _ =>
     rcases write_cases c s t (.event id) with ⟨_, hw⟩ | ⟨_, hw⟩ <;> simp only [Next.st, hw]
 
 /-- A property of trace entries established by every kind of step holds of the whole trace. -/
@@ -262,20 +322,25 @@ theorem loop_forall {c : Cfg} {close : Option Nat} {hz : Nat} (P : Nat × Ev →
     (h1 : ∀ t, P (t, .clientClose)) (h2 : ∀ t, dd = some t → P (t, .selfClose))
     (h3 : ∀ t e, isW e = true → writeOk c t = true → P (t, e))
     (h4 : ∀ t, writeOk c t = false → P (t, .failed) ∧ P (t, .endWrite))
-    (fuel : Nat) (s : St) (arr : List (Nat × Nat)) (hdd : s.discDue = dd) (h : ∀ p ∈ s.trace, P p) :
-    ∀ p ∈ (loop c close hz fuel s arr).trace, P p := by
+    (fuel : Nat) (s : St) (arr : List (Nat × Nat)) (ch : List Nat) (hdd : s.discDue = dd)
+    (h : ∀ p ∈ s.trace, P p) :
+    ∀ p ∈ (loop c close hz fuel s arr ch).trace, P p := by
   have := loop_safe (c := c) (close := close) (hz := hz)
-    (Inv := fun s => s.discDue = dd ∧ ∀ p ∈ s.trace, P p) ?_ ?_ fuel s arr ⟨hdd, h⟩
+    (Inv := fun s => s.discDue = dd ∧ ∀ p ∈ s.trace, P p) ?_ ?_ fuel s arr ch ⟨hdd, h⟩
   · exact this.2
-  · intro s arr s' arr' ⟨hd, h⟩ hs
+  · intro n s arr s' arr' ⟨hd, h⟩ hs
     exact ⟨(step_discDue hs).trans hd, step_forall P hs h h1 (fun t ht => h2 t (hd ▸ ht)) h3 h4⟩
-  · intro s arr s' ⟨hd, h⟩ hs
+  · intro n s arr s' ⟨hd, h⟩ hs
     exact ⟨(step_discDue hs).trans hd, step_forall P hs h h1 (fun t ht => h2 t (hd ▸ ht)) h3 h4⟩
 
-theorem mem_run {c : Cfg} {arr : List (Nat × Nat)} {close : Option Nat} {hz : Nat} {p : Nat × Ev} :
-    p ∈ run c arr close hz ↔
-      p ∈ (loop c close hz (arr.length + (if c.hb != 0 then hz / c.hb else 0) + 4) (init c) arr).trace := by
-  simp [run]
+theorem mem_runCh {c : Cfg} {arr : List (Nat × Nat)} {close : Option Nat} {hz : Nat} {ch : List Nat}
+    {p : Nat × Ev} :
+    p ∈ runCh c arr close hz ch ↔ p ∈ (loop c close hz (fuelFor c arr hz) (init c) arr ch).trace := by
+  simp [runCh]
+
+/-- `run` is the trace under the empty list of choices (every tie resolved by index 0). -/
+theorem run_eq_runCh_nil (c : Cfg) (arr : List (Nat × Nat)) (close : Option Nat) (hz : Nat) :
+    run c arr close hz = runCh c arr close hz [] := rfl
 
 theorem init_discDue_none {c : Cfg} (hw : c.wt = 0) : (init c).discDue = none := by simp [init, hw]
 
@@ -283,12 +348,12 @@ theorem init_discDue {c : Cfg} {d : Nat} (hw : c.wt ≠ 0) (hd : c.deadline = so
     (init c).discDue = some (d - c.dt) := by simp [init, hw, hd]
 
 /-- C16/2 -/
-theorem run_write_lt (c : Cfg) (arr : List (Nat × Nat)) (close : Option Nat) (hz d : Nat)
+theorem run_write_lt (c : Cfg) (arr : List (Nat × Nat)) (close : Option Nat) (hz d : Nat) (ch : List Nat)
     (hd : c.deadline = some d) (hpos : 0 < d) :
-    ∀ p ∈ run c arr close hz, isW p.2 = true → p.1 < d := by
+    ∀ p ∈ runCh c arr close hz ch, isW p.2 = true → p.1 < d := by
   intro p hp
-  refine loop_forall (fun p => isW p.2 = true → p.1 < d) (init c).discDue ?_ ?_ ?_ ?_ _ _ _ rfl ?_ p
-    (mem_run.1 hp)
+  refine loop_forall (fun p => isW p.2 = true → p.1 < d) (init c).discDue ?_ ?_ ?_ ?_ _ _ _ _ rfl ?_ p
+    (mem_runCh.1 hp)
   · intro t; simp [isW]
   · intro t _; simp [isW]
   · intro t e _ hok _; simpa [writeOk_of_deadline hd] using hok
@@ -296,11 +361,12 @@ theorem run_write_lt (c : Cfg) (arr : List (Nat × Nat)) (close : Option Nat) (h
   · intro p hp; simp [init] at hp; subst hp; intro _; exact hpos
 
 /-- C16/6 -/
-theorem run_no_selfClose (c : Cfg) (arr : List (Nat × Nat)) (close : Option Nat) (hz : Nat) (hw : c.wt = 0) :
-    ∀ p ∈ run c arr close hz, p.2 ≠ .selfClose := by
+theorem run_no_selfClose (c : Cfg) (arr : List (Nat × Nat)) (close : Option Nat) (hz : Nat) (ch : List Nat)
+    (hw : c.wt = 0) :
+    ∀ p ∈ runCh c arr close hz ch, p.2 ≠ .selfClose := by
   intro p hp
-  refine loop_forall (fun p => p.2 ≠ .selfClose) none ?_ ?_ ?_ ?_ _ _ _ (init_discDue_none hw) ?_ p
-    (mem_run.1 hp)
+  refine loop_forall (fun p => p.2 ≠ .selfClose) none ?_ ?_ ?_ ?_ _ _ _ _ (init_discDue_none hw) ?_ p
+    (mem_runCh.1 hp)
   · intro t; simp
   · intro t h; simp at h
   · intro t e he _; cases e <;> simp [isW] at he ⊢
@@ -308,12 +374,12 @@ theorem run_no_selfClose (c : Cfg) (arr : List (Nat × Nat)) (close : Option Nat
   · intro p hp; simp [init] at hp; subst hp; simp
 
 /-- C16/8 -/
-theorem run_no_end (c : Cfg) (arr : List (Nat × Nat)) (close : Option Nat) (hz : Nat)
+theorem run_no_end (c : Cfg) (arr : List (Nat × Nat)) (close : Option Nat) (hz : Nat) (ch : List Nat)
     (hw : c.wt = 0) (hd : c.deadline = none) :
-    ∀ p ∈ run c arr close hz, p.2 ≠ .selfClose ∧ p.2 ≠ .failed ∧ p.2 ≠ .endWrite := by
+    ∀ p ∈ runCh c arr close hz ch, p.2 ≠ .selfClose ∧ p.2 ≠ .failed ∧ p.2 ≠ .endWrite := by
   intro p hp
-  refine loop_forall (fun p => p.2 ≠ .selfClose ∧ p.2 ≠ .failed ∧ p.2 ≠ .endWrite) none ?_ ?_ ?_ ?_ _ _ _
-    (init_discDue_none hw) ?_ p (mem_run.1 hp)
+  refine loop_forall (fun p => p.2 ≠ .selfClose ∧ p.2 ≠ .failed ∧ p.2 ≠ .endWrite) none ?_ ?_ ?_ ?_ _ _ _ _
+    (init_discDue_none hw) ?_ p (mem_runCh.1 hp)
   · intro t; simp
   · intro t h; simp at h
   · intro t e he _; cases e <;> simp [isW] at he ⊢
@@ -321,23 +387,23 @@ theorem run_no_end (c : Cfg) (arr : List (Nat × Nat)) (close : Option Nat) (hz 
   · intro p hp; simp [init] at hp; subst hp; simp
 
 /-- C16/7 (the part that holds for every expiry, including 0) -/
-theorem run_failed (c : Cfg) (arr : List (Nat × Nat)) (close : Option Nat) (hz e : Nat)
+theorem run_failed (c : Cfg) (arr : List (Nat × Nat)) (close : Option Nat) (hz e : Nat) (ch : List Nat)
     (hd : c.deadline = some e) :
-    ∀ t, (t, Ev.failed) ∈ run c arr close hz →
-      e ≤ t ∧ (run c arr close hz).getLast? = some (t, .endWrite) := by
+    ∀ t, (t, Ev.failed) ∈ runCh c arr close hz ch →
+      e ≤ t ∧ (runCh c arr close hz ch).getLast? = some (t, .endWrite) := by
   have key := loop_safe (c := c) (close := close) (hz := hz)
     (Inv := fun s => (∀ t, (t, Ev.failed) ∉ s.trace) ∨
       (s.done = true ∧ ∃ t, e ≤ t ∧ s.trace.head? = some (t, .endWrite) ∧
         ∀ t', (t', Ev.failed) ∈ s.trace → t' = t)) ?_ ?_
-    (arr.length + (if c.hb != 0 then hz / c.hb else 0) + 4) (init c) arr (Or.inl (by simp [init]))
+    (fuelFor c arr hz) (init c) arr ch (Or.inl (by simp [init]))
   · intro t ht
-    rw [mem_run] at ht
+    rw [mem_runCh] at ht
     rcases key with h | ⟨_, t0, h1, h2, h3⟩
     · exact absurd ht (h t)
     · have := h3 t ht
       subst this
-      exact ⟨h1, by rw [run, List.getLast?_reverse]; exact h2⟩
-  · intro s arr s' arr' h hs
+      exact ⟨h1, by rw [runCh, List.getLast?_reverse]; exact h2⟩
+  · intro n s arr s' arr' h hs
     have hw : ∀ t ev, s.done = false → ev ≠ Ev.failed →
         (∀ t1, (t1, Ev.failed) ∉ (s.write c t ev true).trace) ∨
         ((s.write c t ev true).done = true ∧ ∃ t0, e ≤ t0 ∧
@@ -361,9 +427,9 @@ theorem run_failed (c : Cfg) (arr : List (Nat × Nat)) (close : Option Nat) (hz 
           · cases h; rfl
           · exact absurd h (hnf t')
     cases hs with
-    | hb t hdn _ _ _ _ _ => exact hw t .comment hdn (by simp)
-    | arr t id rest hdn _ _ _ _ _ _ => exact hw t (.event id) hdn (by simp)
-  · intro s arr s' h hs
+    | hb t hdn _ _ _ _ => exact hw t .comment hdn (by simp)
+    | arr t id rest hdn _ _ _ _ => exact hw t (.event id) hdn (by simp)
+  · intro n s arr s' h hs
     have hnf : s.done = false → ∀ t, (t, Ev.failed) ∉ s.trace := by
       intro hdn
       rcases h with h | ⟨hd', _⟩
@@ -373,7 +439,7 @@ theorem run_failed (c : Cfg) (arr : List (Nat × Nat)) (close : Option Nat) (hz 
     | done _ => exact h
     | idle _ _ _ _ _ => exact h
     | horizon t _ _ _ => exact h
-    | close t hdn _ _ _ => left; intro t'; simpa using hnf hdn t'
+    | close t hdn _ _ _ _ => left; intro t'; simpa using hnf hdn t'
     | disc t hdn _ _ _ _ => left; intro t'; simpa using hnf hdn t'
 
 /-! ### successful write times and chains -/
@@ -440,15 +506,15 @@ theorem wtimes_write (c : Cfg) (s : St) (t : Nat) (e : Ev) (he : isW e = true) :
     rw [wtimes_cons_nw (by rfl), wtimes_cons_nw (by rfl)]
 
 /-- C16/3 -/
-theorem run_heartbeat_gap (c : Cfg) (arr : List (Nat × Nat)) (close : Option Nat) (hz : Nat)
+theorem run_heartbeat_gap (c : Cfg) (arr : List (Nat × Nat)) (close : Option Nat) (hz : Nat) (ch : List Nat)
     (hh : c.hb ≠ 0) :
-    ChainL (fun a b => b ≤ a + c.hb) (wtimes (run c arr close hz)) := by
+    ChainL (fun a b => b ≤ a + c.hb) (wtimes (runCh c arr close hz ch)) := by
   have key := loop_safe (c := c) (close := close) (hz := hz)
     (Inv := fun s => ChainL (fun a b => a ≤ b + c.hb) (wtimes s.trace) ∧
       (s.done = false → ∃ last, (wtimes s.trace).head? = some last ∧ s.hbDue = some (last + c.hb))) ?_ ?_
-    (arr.length + (if c.hb != 0 then hz / c.hb else 0) + 4) (init c) arr ?_
-  · rw [run, wtimes_reverse, chainL_reverse]; exact key.1
-  · intro s arr s' arr' ⟨h1, h2⟩ hs
+    (fuelFor c arr hz) (init c) arr ch ?_
+  · rw [runCh, wtimes_reverse, chainL_reverse]; exact key.1
+  · intro n s arr s' arr' ⟨h1, h2⟩ hs
     have hw : ∀ t e, isW e = true → s.done = false → (∀ x, s.hbDue = some x → t ≤ x) →
         ChainL (fun a b => a ≤ b + c.hb) (wtimes (s.write c t e true).trace) ∧
         ((s.write c t e true).done = false → ∃ last, (wtimes (s.write c t e true).trace).head? = some last ∧
@@ -463,14 +529,14 @@ theorem run_heartbeat_gap (c : Cfg) (arr : List (Nat × Nat)) (close : Option Na
         exact hle _ hl2
       · rw [w2, w1]; exact ⟨h1, fun h => by cases h⟩
     cases hs with
-    | hb t hdn hn _ _ _ _ => exact hw t .comment rfl hdn hn.le_hb
-    | arr t id rest hdn hn _ _ _ _ _ => exact hw t (.event id) rfl hdn hn.le_hb
-  · intro s arr s' ⟨h1, h2⟩ hs
+    | hb t hdn hn _ _ _ => exact hw t .comment rfl hdn hn.le_hb
+    | arr t id rest hdn hn _ _ _ => exact hw t (.event id) rfl hdn hn.le_hb
+  · intro n s arr s' ⟨h1, h2⟩ hs
     cases hs with
     | done _ => exact ⟨h1, h2⟩
     | idle _ _ _ _ _ => exact ⟨h1, h2⟩
     | horizon t _ _ _ => exact ⟨h1, h2⟩
-    | close t hdn _ _ _ =>
+    | close t hdn _ _ _ _ =>
       refine ⟨?_, fun h => by cases h⟩
       show ChainL _ (wtimes (_ :: _)); rw [wtimes_cons_nw (by rfl)]; exact h1
     | disc t hdn _ _ _ _ =>
@@ -478,7 +544,7 @@ theorem run_heartbeat_gap (c : Cfg) (arr : List (Nat × Nat)) (close : Option Na
       show ChainL _ (wtimes (_ :: _)); rw [wtimes_cons_nw (by rfl)]; exact h1
   · refine ⟨by simp [init, wtimes, isW, ChainL], fun _ => ⟨0, by simp [init, wtimes, isW], by simp [init, hh]⟩⟩
 
-/-! ### time is monotone and the fuel of `run` suffices -/
+/-! ### time is monotone and the fuel of `runCh` suffices -/
 
 /-- Arrivals are sorted; while the loop runs, the heartbeat timer is armed one interval after the
     latest successful write, which is not after any remaining arrival. -/
@@ -512,12 +578,14 @@ theorem div_step {hb hz t : Nat} (h0 : hb ≠ 0) (ht : t ≤ hz) :
   rw [e1, e2, Nat.add_div_right _ (Nat.pos_of_ne_zero h0)]
   exact Nat.lt_succ_self _
 
-theorem mono_cont {c : Cfg} {close : Option Nat} {hz : Nat} {s s' : St} {arr arr' : List (Nat × Nat)}
-    (hm : Mono c s arr) (hs : Step c close hz s arr (.cont s' arr')) :
+/-- Whatever case fires, the measure decreases: a heartbeat consumes one of the intervals that fit before
+    the horizon, an arrival consumes an element of `arr` and can only push the heartbeat timer later. -/
+theorem mono_cont {c : Cfg} {close : Option Nat} {hz n : Nat} {s s' : St} {arr arr' : List (Nat × Nat)}
+    (hm : Mono c s arr) (hs : Step c close hz n s arr (.cont s' arr')) :
     Mono c s' arr' ∧ mu c hz s' arr' < mu c hz s arr := by
   obtain ⟨hp, hm⟩ := hm
   cases hs with
-  | hb t hdn hn hle _ _ hhb =>
+  | hb t hdn hn hle hhb _ =>
     rcases hm hdn with ⟨_, h2⟩ | ⟨h0, last, hl1, hl2, hl3⟩
     · rw [h2] at hhb; cases hhb
     have htl : t = last + c.hb := by rw [hl2] at hhb; cases hhb; rfl
@@ -530,7 +598,7 @@ theorem mono_cont {c : Cfg} {close : Option Nat} {hz : Nat} {s s' : St} {arr arr
     · refine ⟨⟨hp, fun h => by rw [w1] at h; cases h⟩, ?_⟩
       simp only [mu, w1, hdn, if_true, if_false, Bool.false_eq_true]
       omega
-  | arr t id rest hdn hn hle _ _ hhb harr =>
+  | arr t id rest hdn hn hle harr _ =>
     subst harr
     rw [List.pairwise_cons] at hp
     rcases wtimes_write c s t (.event id) rfl with ⟨_, w1, _, _, w2, w3⟩ | ⟨_, w1, _, _, w2⟩
@@ -548,22 +616,40 @@ theorem mono_cont {c : Cfg} {close : Option Nat} {hz : Nat} {s s' : St} {arr arr
       simp only [mu, w1, hdn, if_true, if_false, Bool.false_eq_true]
       omega
 
-theorem loop_total {c : Cfg} {close : Option Nat} {hz : Nat} (Inv : St → Prop) (Post : St → Prop)
-    (hcont : ∀ s arr s' arr', Mono c s arr → Inv s → Step c close hz s arr (.cont s' arr') → Inv s')
-    (hstop : ∀ s arr s', Mono c s arr → Inv s → Step c close hz s arr (.stop s') → Post s') :
-    ∀ fuel s arr, Mono c s arr → Inv s → mu c hz s arr < fuel → Post (loop c close hz fuel s arr) := by
+/-- Total-correctness induction, relative to a predicate `Q` on the choice numbers actually used
+    (`Q := fun _ => True` for "every resolution", `Q := (· = 0)` for the fixed order of `run`). -/
+theorem loop_totalQ {c : Cfg} {close : Option Nat} {hz : Nat} (Q : Nat → Prop) (Inv : St → Prop)
+    (Post : St → Prop)
+    (hcont : ∀ n s arr s' arr', Q n → Mono c s arr → Inv s → Step c close hz n s arr (.cont s' arr') → Inv s')
+    (hstop : ∀ n s arr s', Q n → Mono c s arr → Inv s → Step c close hz n s arr (.stop s') → Post s')
+    (hQ0 : Q 0) :
+    ∀ fuel s arr ch, (∀ n ∈ ch, Q n) → Mono c s arr → Inv s → mu c hz s arr < fuel →
+      Post (loop c close hz fuel s arr ch) := by
   intro fuel
   induction fuel with
-  | zero => intro s arr _ _ h; exact absurd h (Nat.not_lt_zero _)
+  | zero => intro s arr ch _ _ _ h; exact absurd h (Nat.not_lt_zero _)
   | succ n ih =>
-    intro s arr hm h hf
-    obtain ⟨nx, hs, he⟩ := loop_succ c close hz n s arr
+    intro s arr ch hch hm h hf
+    obtain ⟨nx, hs, he⟩ := loop_succ c close hz n s arr ch
     rw [he]
+    have hq : Q (ch.headD 0) := by
+      cases ch with
+      | nil => exact hQ0
+      | cons a l => exact hch a (List.mem_cons_self ..)
+    have hq' : ∀ n ∈ ch.tail, Q n := fun n hn => hch n (List.mem_of_mem_tail hn)
     cases nx with
-    | stop s' => exact hstop s arr s' hm h hs
+    | stop s' => exact hstop _ s arr s' hq hm h hs
     | cont s' arr' =>
       obtain ⟨hm', hlt⟩ := mono_cont hm hs
-      exact ih s' arr' hm' (hcont s arr s' arr' hm h hs) (by omega)
+      exact ih s' arr' ch.tail hq' hm' (hcont _ s arr s' arr' hq hm h hs) (by omega)
+
+theorem loop_total {c : Cfg} {close : Option Nat} {hz : Nat} (Inv : St → Prop) (Post : St → Prop)
+    (hcont : ∀ n s arr s' arr', Mono c s arr → Inv s → Step c close hz n s arr (.cont s' arr') → Inv s')
+    (hstop : ∀ n s arr s', Mono c s arr → Inv s → Step c close hz n s arr (.stop s') → Post s') :
+    ∀ fuel s arr ch, Mono c s arr → Inv s → mu c hz s arr < fuel → Post (loop c close hz fuel s arr ch) := by
+  intro fuel s arr ch
+  exact loop_totalQ (fun _ => True) Inv Post (fun n s arr s' arr' _ => hcont n s arr s' arr')
+    (fun n s arr s' _ => hstop n s arr s') trivial fuel s arr ch (fun _ _ => trivial)
 
 theorem mono_init (c : Cfg) {arr : List (Nat × Nat)} (hp : arr.Pairwise (fun a b => a.1 ≤ b.1)) :
     Mono c (init c) arr := by
@@ -573,26 +659,26 @@ theorem mono_init (c : Cfg) {arr : List (Nat × Nat)} (hp : arr.Pairwise (fun a 
   · exact Or.inr ⟨h0, 0, by simp [init, wtimes, isW], by simp [init, h0], by simp⟩
 
 theorem mu_init (c : Cfg) (arr : List (Nat × Nat)) (hz : Nat) :
-    mu c hz (init c) arr < arr.length + (if c.hb != 0 then hz / c.hb else 0) + 4 := by
+    mu c hz (init c) arr < fuelFor c arr hz := by
   by_cases h0 : c.hb = 0
-  · simp [mu, init, h0]
-  · simp [mu, init, h0]
+  · simp [mu, init, fuelFor, h0]
+  · simp [mu, init, fuelFor, h0]
 
 /-- C16/4 -/
 theorem run_heartbeat_until_horizon (c : Cfg) (arr : List (Nat × Nat)) (close : Option Nat) (hz : Nat)
-    (hs : arr.Pairwise (fun a b => a.1 ≤ b.1)) (hh : c.hb ≠ 0) :
-    (∃ p ∈ run c arr close hz, isE p.2 = true) ∨
-    ∃ t, (wtimes (run c arr close hz)).getLast? = some t ∧ hz < t + c.hb := by
+    (ch : List Nat) (hs : arr.Pairwise (fun a b => a.1 ≤ b.1)) (hh : c.hb ≠ 0) :
+    (∃ p ∈ runCh c arr close hz ch, isE p.2 = true) ∨
+    ∃ t, (wtimes (runCh c arr close hz ch)).getLast? = some t ∧ hz < t + c.hb := by
   have key := loop_total (c := c) (close := close) (hz := hz)
     (Inv := fun s => s.done = true → ∃ p ∈ s.trace, isE p.2 = true)
     (Post := fun s => (∃ p ∈ s.trace, isE p.2 = true) ∨
       ∃ t, (wtimes s.trace).head? = some t ∧ hz < t + c.hb) ?_ ?_
-    (arr.length + (if c.hb != 0 then hz / c.hb else 0) + 4) (init c) arr (mono_init c hs)
+    (fuelFor c arr hz) (init c) arr ch (mono_init c hs)
     (by simp [init]) (mu_init c arr hz)
   · rcases key with ⟨p, hp, hpe⟩ | ⟨t, h1, h2⟩
-    · exact Or.inl ⟨p, mem_run.2 hp, hpe⟩
-    · exact Or.inr ⟨t, by rw [run, wtimes_reverse, List.getLast?_reverse]; exact h1, h2⟩
-  · intro s arr s' arr' _ _ hst
+    · exact Or.inl ⟨p, mem_runCh.2 hp, hpe⟩
+    · exact Or.inr ⟨t, by rw [runCh, wtimes_reverse, List.getLast?_reverse]; exact h1, h2⟩
+  · intro n s arr s' arr' _ _ hst
     have hw : ∀ t e, isW e = true → s.done = false →
         (s.write c t e true).done = true → ∃ p ∈ (s.write c t e true).trace, isE p.2 = true := by
       intro t e he hdn
@@ -600,9 +686,9 @@ theorem run_heartbeat_until_horizon (c : Cfg) (arr : List (Nat × Nat)) (close :
       · rw [w1, hdn]; intro h; cases h
       · intro _; rw [w2]; exact ⟨(t, .endWrite), by simp, rfl⟩
     cases hst with
-    | hb t hdn _ _ _ _ _ => exact hw t .comment rfl hdn
-    | arr t id rest hdn _ _ _ _ _ _ => exact hw t (.event id) rfl hdn
-  · intro s arr s' hm h hst
+    | hb t hdn _ _ _ _ => exact hw t .comment rfl hdn
+    | arr t id rest hdn _ _ _ _ => exact hw t (.event id) rfl hdn
+  · intro n s arr s' hm h hst
     cases hst with
     | done hdn => exact Or.inl (h hdn)
     | idle hdn _ h2 _ _ =>
@@ -614,49 +700,84 @@ theorem run_heartbeat_until_horizon (c : Cfg) (arr : List (Nat × Nat)) (close :
       · exact absurd h0 hh
       · have := hn.le_hb _ hl2
         exact Or.inr ⟨last, hl1, by omega⟩
-    | close t _ _ _ _ => exact Or.inl ⟨(t, .clientClose), by simp, rfl⟩
+    | close t _ _ _ _ _ => exact Or.inl ⟨(t, .clientClose), by simp, rfl⟩
     | disc t _ _ _ _ _ => exact Or.inl ⟨(t, .selfClose), by simp, rfl⟩
 
-/-- C16/5 -/
-theorem run_self_disconnect (c : Cfg) (arr : List (Nat × Nat)) (close : Option Nat) (hz d : Nat)
+/-! ### C16/5 — the disconnection timer under ties
+
+  At the instant `d - dt` the disconnection timer can tie with the heartbeat timer or with arrivals:
+  `select` may serve those first (still at the instant `d - dt`), any number of times, before it serves
+  the disconnection timer. Such a write succeeds when `d - dt < d`; when `d - dt = d` (dispatch timeout 0,
+  or a deadline of 0) it is a write at the deadline itself: it fails and the handler returns through the
+  write-failure path instead of the timer. With the fixed order of `run` (choice 0) the timer always wins. -/
+
+theorem run_self_disconnect_Q (Q : Nat → Prop) (hQ0 : Q 0)
+    (c : Cfg) (arr : List (Nat × Nat)) (close : Option Nat) (hz d : Nat) (ch : List Nat)
+    (hch : ∀ n ∈ ch, Q n)
     (hs : arr.Pairwise (fun a b => a.1 ≤ b.1)) (hw : c.wt ≠ 0) (hd : c.deadline = some d)
     (hhz : d - c.dt ≤ hz) (hc : ∀ x, close = some x → d - c.dt < x) :
-    ∃ tr, run c arr close hz = tr ++ [(d - c.dt, .selfClose)] ∧
+    ∃ tr, (runCh c arr close hz ch = tr ++ [(d - c.dt, .selfClose)] ∨
+        (¬ d - c.dt < d ∧ (∃ n, Q n ∧ n ≠ 0) ∧
+          runCh c arr close hz ch = tr ++ [(d - c.dt, .failed), (d - c.dt, .endWrite)])) ∧
       ∀ p ∈ tr, isE p.2 = false ∧ p.2 ≠ .failed ∧ p.1 ≤ d - c.dt := by
-  have key := loop_total (c := c) (close := close) (hz := hz)
+  have key := loop_totalQ (c := c) (close := close) (hz := hz) Q
     (Inv := fun s =>
       (s.done = false ∧ s.discDue = some (d - c.dt) ∧
         ∀ p ∈ s.trace, isE p.2 = false ∧ p.2 ≠ .failed ∧ p.1 ≤ d - c.dt) ∨
-      (s.done = true ∧ ∃ tr, s.trace = (d - c.dt, .selfClose) :: tr ∧
+      (s.done = true ∧ ∃ tr, (s.trace = (d - c.dt, .selfClose) :: tr ∨
+          (¬ d - c.dt < d ∧ (∃ n, Q n ∧ n ≠ 0) ∧
+            s.trace = (d - c.dt, .endWrite) :: (d - c.dt, .failed) :: tr)) ∧
         ∀ p ∈ tr, isE p.2 = false ∧ p.2 ≠ .failed ∧ p.1 ≤ d - c.dt))
-    (Post := fun s => ∃ tr, s.trace = (d - c.dt, .selfClose) :: tr ∧
-        ∀ p ∈ tr, isE p.2 = false ∧ p.2 ≠ .failed ∧ p.1 ≤ d - c.dt) ?_ ?_
-    (arr.length + (if c.hb != 0 then hz / c.hb else 0) + 4) (init c) arr (mono_init c hs)
+    (Post := fun s => ∃ tr, (s.trace = (d - c.dt, .selfClose) :: tr ∨
+          (¬ d - c.dt < d ∧ (∃ n, Q n ∧ n ≠ 0) ∧
+            s.trace = (d - c.dt, .endWrite) :: (d - c.dt, .failed) :: tr)) ∧
+        ∀ p ∈ tr, isE p.2 = false ∧ p.2 ≠ .failed ∧ p.1 ≤ d - c.dt) ?_ ?_ hQ0
+    (fuelFor c arr hz) (init c) arr ch hch (mono_init c hs)
     (Or.inl ⟨rfl, init_discDue hw hd, by simp [init, isE]⟩) (mu_init c arr hz)
   · obtain ⟨tr, h1, h2⟩ := key
-    refine ⟨tr.reverse, by rw [run, h1, List.reverse_cons], ?_⟩
-    intro p hp; exact h2 p (List.mem_reverse.1 hp)
-  · intro s arr s' arr' _ h hst
-    have hwr : ∀ t e, isW e = true → s.done = false → (∀ x, s.discDue = some x → t < x) →
-        (s.write c t e true).done = false ∧ (s.write c t e true).discDue = some (d - c.dt) ∧
-        ∀ p ∈ (s.write c t e true).trace, isE p.2 = false ∧ p.2 ≠ .failed ∧ p.1 ≤ d - c.dt := by
-      intro t e he hdn hlt
+    refine ⟨tr.reverse, ?_, fun p hp => h2 p (List.mem_reverse.1 hp)⟩
+    rcases h1 with h1 | ⟨ha, hb, h1⟩
+    · exact Or.inl (by rw [runCh, h1, List.reverse_cons])
+    · exact Or.inr ⟨ha, hb, by rw [runCh, h1]; simp⟩
+  · intro n s arr s' arr' hq _ h hst
+    have hwr : ∀ t e k, isW e = true → s.done = false → IsNext close s arr t → k ≠ Kind.disc →
+        pick (ready close s arr t) n = some k →
+        ((s.write c t e true).done = false ∧ (s.write c t e true).discDue = some (d - c.dt) ∧
+          ∀ p ∈ (s.write c t e true).trace, isE p.2 = false ∧ p.2 ≠ .failed ∧ p.1 ≤ d - c.dt) ∨
+        ((s.write c t e true).done = true ∧ ∃ tr, ((s.write c t e true).trace = (d - c.dt, .selfClose) :: tr ∨
+          (¬ d - c.dt < d ∧ (∃ n, Q n ∧ n ≠ 0) ∧
+            (s.write c t e true).trace = (d - c.dt, .endWrite) :: (d - c.dt, .failed) :: tr)) ∧
+          ∀ p ∈ tr, isE p.2 = false ∧ p.2 ≠ .failed ∧ p.1 ≤ d - c.dt) := by
+      intro t e k he hdn hn hk hp
       rcases h with ⟨_, h2, h3⟩ | ⟨h1, _⟩
-      · have htd := hlt _ h2
-        rcases wtimes_write c s t e he with ⟨_, w1, w2, w3, _, _⟩ | ⟨hok, _, _, _, _⟩
-        · refine ⟨w1.trans hdn, w2.trans h2, ?_⟩
+      · have htd := hn.le_disc _ h2
+        rcases wtimes_write c s t e he with ⟨_, w1, w2, w3, _, _⟩ | ⟨hok, w1, _, w3, _⟩
+        · refine Or.inl ⟨w1.trans hdn, w2.trans h2, ?_⟩
           rw [w3]; intro p hp
           rcases List.mem_cons.1 hp with rfl | hp
-          · refine ⟨?_, ?_, by show t ≤ _; omega⟩ <;> cases e <;> simp [isW, isE] at he ⊢
+          · refine ⟨?_, ?_, htd⟩ <;> cases e <;> simp [isW, isE] at he ⊢
           · exact h3 p hp
         · rw [writeOk_of_deadline hd] at hok
-          have : ¬ t < d := by simpa using hok
-          omega
+          have hnlt : ¬ t < d := by simpa using hok
+          have hteq : t = d - c.dt := by omega
+          subst hteq
+          refine Or.inr ⟨w1, s.trace, Or.inr ⟨by omega, ⟨n, hq, ?_⟩, w3⟩, h3⟩
+          intro hn0
+          subst hn0
+          have hcl : ¬ optLe close (d - c.dt) = true := by
+            intro hcl
+            obtain ⟨x, hx, hxt⟩ := optLe_true.1 hcl
+            have := hc x hx
+            omega
+          have hdi : optLe s.discDue (d - c.dt) = true := optLe_true.2 ⟨_, h2, Nat.le_refl _⟩
+          rw [pick_zero_disc hcl hdi] at hp
+          cases hp
+          exact hk rfl
       · rw [hdn] at h1; cases h1
     cases hst with
-    | hb t hdn _ _ _ hlt _ => exact Or.inl (hwr t .comment rfl hdn hlt)
-    | arr t id rest hdn _ _ _ hlt _ _ => exact Or.inl (hwr t (.event id) rfl hdn hlt)
-  · intro s arr s' _ h hst
+    | hb t hdn hn _ _ hp => exact hwr t .comment .hb rfl hdn hn (by simp) hp
+    | arr t id rest hdn hn _ _ hp => exact hwr t (.event id) .arr rfl hdn hn (by simp) hp
+  · intro n s arr s' _ _ h hst
     cases hst with
     | done hdn =>
       rcases h with ⟨h1, _⟩ | ⟨_, h2⟩
@@ -670,25 +791,84 @@ theorem run_self_disconnect (c : Cfg) (arr : List (Nat × Nat)) (close : Option 
       rcases h with ⟨_, h2, _⟩ | ⟨h2, _⟩
       · have := hn.le_disc _ h2; omega
       · rw [hdn] at h2; cases h2
-    | close t hdn hn _ hcl =>
+    | close t hdn hn _ hcl _ =>
       rcases h with ⟨_, h2, _⟩ | ⟨h2, _⟩
       · have := hn.le_disc _ h2; have := hc t hcl; omega
       · rw [hdn] at h2; cases h2
-    | disc t hdn _ _ _ hdd =>
+    | disc t hdn _ _ hdd _ =>
       rcases h with ⟨_, h2, h3⟩ | ⟨h2, _⟩
       · rw [h2] at hdd; cases hdd
-        exact ⟨s.trace, rfl, h3⟩
+        exact ⟨s.trace, Or.inl rfl, h3⟩
       · rw [hdn] at h2; cases h2
+
+/-- C16/5 for every resolution of the ties, in full generality: the connection ends exactly at `d - dt`,
+    by the disconnection timer — or, only when `d - dt = d`, by a write that lost nothing but the race
+    against the timer at that very instant and hit the deadline. Nothing before the end is later than `d - dt`. -/
+theorem run_self_disconnect_tie (c : Cfg) (arr : List (Nat × Nat)) (close : Option Nat) (hz d : Nat)
+    (ch : List Nat)
+    (hs : arr.Pairwise (fun a b => a.1 ≤ b.1)) (hw : c.wt ≠ 0) (hd : c.deadline = some d)
+    (hhz : d - c.dt ≤ hz) (hc : ∀ x, close = some x → d - c.dt < x) :
+    ∃ tr, (runCh c arr close hz ch = tr ++ [(d - c.dt, .selfClose)] ∨
+        (¬ d - c.dt < d ∧
+          runCh c arr close hz ch = tr ++ [(d - c.dt, .failed), (d - c.dt, .endWrite)])) ∧
+      ∀ p ∈ tr, isE p.2 = false ∧ p.2 ≠ .failed ∧ p.1 ≤ d - c.dt := by
+  obtain ⟨tr, h1, h2⟩ := run_self_disconnect_Q (fun _ => True) trivial c arr close hz d ch
+    (fun _ _ => trivial) hs hw hd hhz hc
+  refine ⟨tr, ?_, h2⟩
+  rcases h1 with h1 | ⟨ha, _, h1⟩
+  · exact Or.inl h1
+  · exact Or.inr ⟨ha, h1⟩
+
+/-- C16/5 for every resolution of the ties, with the old conclusion; the new hypothesis is
+    `d - c.dt < d` (the disconnection instant is strictly before the deadline: `dt ≠ 0` and `d ≠ 0`). -/
+theorem run_self_disconnect (c : Cfg) (arr : List (Nat × Nat)) (close : Option Nat) (hz d : Nat)
+    (ch : List Nat)
+    (hs : arr.Pairwise (fun a b => a.1 ≤ b.1)) (hw : c.wt ≠ 0) (hd : c.deadline = some d)
+    (hhz : d - c.dt ≤ hz) (hc : ∀ x, close = some x → d - c.dt < x) (hlt : d - c.dt < d) :
+    ∃ tr, runCh c arr close hz ch = tr ++ [(d - c.dt, .selfClose)] ∧
+      ∀ p ∈ tr, isE p.2 = false ∧ p.2 ≠ .failed ∧ p.1 ≤ d - c.dt := by
+  obtain ⟨tr, h1, h2⟩ := run_self_disconnect_tie c arr close hz d ch hs hw hd hhz hc
+  rcases h1 with h1 | ⟨ha, _⟩
+  · exact ⟨tr, h1, h2⟩
+  · exact absurd hlt ha
+
+/-- C16/5 exactly as before (no extra hypothesis) for the fixed order of `run`. -/
+theorem run_self_disconnect_fixed (c : Cfg) (arr : List (Nat × Nat)) (close : Option Nat) (hz d : Nat)
+    (hs : arr.Pairwise (fun a b => a.1 ≤ b.1)) (hw : c.wt ≠ 0) (hd : c.deadline = some d)
+    (hhz : d - c.dt ≤ hz) (hc : ∀ x, close = some x → d - c.dt < x) :
+    ∃ tr, run c arr close hz = tr ++ [(d - c.dt, .selfClose)] ∧
+      ∀ p ∈ tr, isE p.2 = false ∧ p.2 ≠ .failed ∧ p.1 ≤ d - c.dt := by
+  obtain ⟨tr, h1, h2⟩ := run_self_disconnect_Q (fun n => n = 0) rfl c arr close hz d []
+    (fun _ h => by cases h) hs hw hd hhz hc
+  rcases h1 with h1 | ⟨_, ⟨n, hn0, hn1⟩, _⟩
+  · exact ⟨tr, h1, h2⟩
+  · exact absurd hn0 hn1
+
+/-- Without `d - c.dt < d` the old statement of C16/5 fails for some resolution of the ties: with
+    dispatch timeout 0 the disconnection timer and the heartbeat are both due at 1000 = the deadline; if
+    `select` serves the heartbeat first, that write fails and the handler returns through the failed write. -/
+theorem self_disconnect_tie_counterexample :
+    let c : Cfg := { wt := 1000, dt := 0, hb := 1000, exp := none }
+    c.deadline = some 1000 ∧
+    runCh c [] none 2000 [0] = [(0, .comment), (1000, .selfClose)] ∧
+    runCh c [] none 2000 [1] = [(0, .comment), (1000, .failed), (1000, .endWrite)] ∧
+    ¬ (∃ tr, runCh c [] none 2000 [1] = tr ++ [(1000 - c.dt, .selfClose)]) := by
+  refine ⟨by decide +kernel, by decide +kernel, by decide +kernel, ?_⟩
+  rintro ⟨tr, h⟩
+  have h2 : (runCh { wt := 1000, dt := 0, hb := 1000, exp := none } [] none 2000 [1]).getLast? =
+      some (1000, Ev.endWrite) := by decide +kernel
+  rw [h] at h2
+  simp at h2
 
 /-- C16/7 with the missing hypothesis `0 < e`. -/
 theorem run_ends_on_first_write_after_expiry (c : Cfg) (arr : List (Nat × Nat)) (close : Option Nat)
-    (hz e : Nat) (hd : c.deadline = some e) (hpos : 0 < e) :
-    ∀ t, (t, Ev.failed) ∈ run c arr close hz →
-      e ≤ t ∧ (run c arr close hz).getLast? = some (t, .endWrite) ∧
-      (∀ p ∈ run c arr close hz, isW p.2 = true → p.1 < e) := by
+    (hz e : Nat) (ch : List Nat) (hd : c.deadline = some e) (hpos : 0 < e) :
+    ∀ t, (t, Ev.failed) ∈ runCh c arr close hz ch →
+      e ≤ t ∧ (runCh c arr close hz ch).getLast? = some (t, .endWrite) ∧
+      (∀ p ∈ runCh c arr close hz ch, isW p.2 = true → p.1 < e) := by
   intro t ht
-  obtain ⟨h1, h2⟩ := run_failed c arr close hz e hd t ht
-  exact ⟨h1, h2, run_write_lt c arr close hz e hd hpos⟩
+  obtain ⟨h1, h2⟩ := run_failed c arr close hz e ch hd t ht
+  exact ⟨h1, h2, run_write_lt c arr close hz e ch hd hpos⟩
 
 /-- The third conjunct of C16/7 as stated (without `0 < e`) fails when the token is already expired
     at t0: the failed write exists, yet the initial comment is a successful write at time 0 = e. -/
@@ -700,5 +880,147 @@ theorem expiry_zero_counterexample :
   refine ⟨by decide +kernel, by decide +kernel, ?_⟩
   intro h
   exact Nat.not_lt_zero _ (h (0, .comment) (by decide +kernel) rfl)
+
+/-! ### `runAll` enumerates exactly the traces `runCh … ch`, `ch` ranging over all lists of choices -/
+
+theorem loop_done_eq {c : Cfg} {close : Option Nat} {hz fuel : Nat} {s : St} {arr : List (Nat × Nat)}
+    (ch : List Nat) (hd : s.done = true) :
+    loop c close hz (fuel + 1) s arr ch = s ∧ loopAll c close hz (fuel + 1) s arr = [s] := by
+  rw [loop, loopAll]; simp [hd]
+
+theorem loop_idle_eq {c : Cfg} {close : Option Nat} {hz fuel : Nat} {s : St} {arr : List (Nat × Nat)}
+    (ch : List Nat) (hd : s.done = false) (hn : nextInstant close s arr = none) :
+    loop c close hz (fuel + 1) s arr ch = s ∧ loopAll c close hz (fuel + 1) s arr = [s] := by
+  rw [loop, loopAll]; simp [hd, hn]
+
+theorem loop_hz_eq {c : Cfg} {close : Option Nat} {hz fuel t : Nat} {s : St} {arr : List (Nat × Nat)}
+    (ch : List Nat) (hd : s.done = false) (hn : nextInstant close s arr = some t) (hh : t > hz) :
+    loop c close hz (fuel + 1) s arr ch = s ∧ loopAll c close hz (fuel + 1) s arr = [s] := by
+  rw [loop, loopAll]; simp [hd, hn, hh]
+
+theorem loop_noready_eq {c : Cfg} {close : Option Nat} {hz fuel t : Nat} {s : St} {arr : List (Nat × Nat)}
+    (ch : List Nat) (hd : s.done = false) (hn : nextInstant close s arr = some t) (hh : ¬ t > hz)
+    (hr : ready close s arr t = []) :
+    loop c close hz (fuel + 1) s arr ch = s ∧ loopAll c close hz (fuel + 1) s arr = [s] := by
+  rw [loop, loopAll]; simp [hd, hn, hh, hr, pick]
+
+theorem loop_fire_eq {c : Cfg} {close : Option Nat} {hz fuel t : Nat} {s : St} {arr : List (Nat × Nat)}
+    {ch : List Nat} {k : Kind} (hd : s.done = false) (hn : nextInstant close s arr = some t) (hh : ¬ t > hz)
+    (hp : pick (ready close s arr t) (ch.headD 0) = some k) :
+    loop c close hz (fuel + 1) s arr ch =
+      (match fire c s arr t k with
+        | (s', none) => s'
+        | (s', some arr') => loop c close hz fuel s' arr' ch.tail) := by
+  rw [loop]; simp only [hd, hn, hh, hp, Bool.false_eq_true, if_false]
+  rfl
+
+theorem loopAll_fire_eq {c : Cfg} {close : Option Nat} {hz fuel t : Nat} {s : St} {arr : List (Nat × Nat)}
+    (hd : s.done = false) (hn : nextInstant close s arr = some t) (hh : ¬ t > hz)
+    (hr : ready close s arr t ≠ []) :
+    loopAll c close hz (fuel + 1) s arr =
+      (ready close s arr t).flatMap fun k =>
+        match fire c s arr t k with
+        | (s', none) => [s']
+        | (s', some arr') => loopAll c close hz fuel s' arr' := by
+  rw [loopAll]; simp only [hd, hn, hh, Bool.false_eq_true, if_false]
+  rfl
+
+/-- Every final state enumerated by `loopAll` is the final state of `loop` under some choices. -/
+theorem loopAll_sound (c : Cfg) (close : Option Nat) (hz : Nat) :
+    ∀ fuel s arr s', s' ∈ loopAll c close hz fuel s arr → ∃ ch, loop c close hz fuel s arr ch = s' := by
+  intro fuel
+  induction fuel with
+  | zero =>
+    intro s arr s' h
+    rw [loopAll] at h
+    exact ⟨[], by rw [loop_zero]; exact (List.mem_singleton.1 h).symm⟩
+  | succ n ih =>
+    intro s arr s' h
+    by_cases hd : s.done = true
+    · obtain ⟨e1, e2⟩ := loop_done_eq (c := c) (close := close) (hz := hz) (fuel := n) (arr := arr) [] hd
+      rw [e2] at h; exact ⟨[], by rw [e1]; exact (List.mem_singleton.1 h).symm⟩
+    have hd' : s.done = false := by simpa using hd
+    cases hn : nextInstant close s arr with
+    | none =>
+      obtain ⟨e1, e2⟩ := loop_idle_eq (c := c) (hz := hz) (fuel := n) [] hd' hn
+      rw [e2] at h; exact ⟨[], by rw [e1]; exact (List.mem_singleton.1 h).symm⟩
+    | some t =>
+      by_cases hh : t > hz
+      · obtain ⟨e1, e2⟩ := loop_hz_eq (c := c) (fuel := n) [] hd' hn hh
+        rw [e2] at h; exact ⟨[], by rw [e1]; exact (List.mem_singleton.1 h).symm⟩
+      by_cases hr : ready close s arr t = []
+      · obtain ⟨e1, e2⟩ := loop_noready_eq (c := c) (fuel := n) [] hd' hn hh hr
+        rw [e2] at h; exact ⟨[], by rw [e1]; exact (List.mem_singleton.1 h).symm⟩
+      rw [loopAll_fire_eq hd' hn hh hr, List.mem_flatMap] at h
+      obtain ⟨k, hk, hs'⟩ := h
+      obtain ⟨i, hi⟩ := pick_of_mem hk
+      cases hf : fire c s arr t k with
+      | mk s1 o =>
+        rw [hf] at hs'
+        cases o with
+        | none =>
+          refine ⟨[i], ?_⟩
+          rw [loop_fire_eq (ch := [i]) hd' hn hh hi, hf]
+          exact (List.mem_singleton.1 hs').symm
+        | some arr' =>
+          obtain ⟨ch', hch'⟩ := ih s1 arr' s' hs'
+          refine ⟨i :: ch', ?_⟩
+          rw [loop_fire_eq (ch := i :: ch') hd' hn hh hi, hf]
+          exact hch'
+
+/-- The final state of `loop` under any choices is enumerated by `loopAll`. -/
+theorem loop_mem_loopAll (c : Cfg) (close : Option Nat) (hz : Nat) :
+    ∀ fuel s arr ch, loop c close hz fuel s arr ch ∈ loopAll c close hz fuel s arr := by
+  intro fuel
+  induction fuel with
+  | zero => intro s arr ch; rw [loop_zero, loopAll]; simp
+  | succ n ih =>
+    intro s arr ch
+    by_cases hd : s.done = true
+    · obtain ⟨e1, e2⟩ := loop_done_eq (c := c) (close := close) (hz := hz) (fuel := n) (arr := arr) ch hd
+      rw [e1, e2]; simp
+    have hd' : s.done = false := by simpa using hd
+    cases hn : nextInstant close s arr with
+    | none =>
+      obtain ⟨e1, e2⟩ := loop_idle_eq (c := c) (hz := hz) (fuel := n) ch hd' hn
+      rw [e1, e2]; simp
+    | some t =>
+      by_cases hh : t > hz
+      · obtain ⟨e1, e2⟩ := loop_hz_eq (c := c) (fuel := n) ch hd' hn hh
+        rw [e1, e2]; simp
+      cases hp : pick (ready close s arr t) (ch.headD 0) with
+      | none =>
+        obtain ⟨e1, e2⟩ := loop_noready_eq (c := c) (fuel := n) ch hd' hn hh (pick_none hp)
+        rw [e1, e2]; simp
+      | some k =>
+        have hk := pick_mem hp
+        have hr : ready close s arr t ≠ [] := by intro h; rw [h] at hk; simp at hk
+        rw [loop_fire_eq hd' hn hh hp, loopAll_fire_eq hd' hn hh hr, List.mem_flatMap]
+        refine ⟨k, hk, ?_⟩
+        cases hf : fire c s arr t k with
+        | mk s1 o =>
+          cases o with
+          | none => simp
+          | some arr' => exact ih s1 arr' ch.tail
+
+/-- Soundness of the acceptor: every accepted trace is the trace under some resolution of the ties. -/
+theorem runAll_sound (c : Cfg) (arr : List (Nat × Nat)) (close : Option Nat) (hz : Nat) :
+    ∀ tr ∈ runAll c arr close hz, ∃ ch, tr = runCh c arr close hz ch := by
+  intro tr h
+  rw [runAll, List.mem_map] at h
+  obtain ⟨s', hs', rfl⟩ := h
+  obtain ⟨ch, hch⟩ := loopAll_sound c close hz _ _ _ s' hs'
+  exact ⟨ch, by rw [runCh, hch]⟩
+
+/-- Completeness of the acceptor: the trace under any resolution of the ties is accepted. -/
+theorem runCh_mem_runAll (c : Cfg) (arr : List (Nat × Nat)) (close : Option Nat) (hz : Nat) (ch : List Nat) :
+    runCh c arr close hz ch ∈ runAll c arr close hz := by
+  rw [runAll, List.mem_map]
+  exact ⟨_, loop_mem_loopAll c close hz _ _ _ ch, rfl⟩
+
+theorem mem_runAll_iff (c : Cfg) (arr : List (Nat × Nat)) (close : Option Nat) (hz : Nat)
+    (tr : List (Nat × Ev)) :
+    tr ∈ runAll c arr close hz ↔ ∃ ch, tr = runCh c arr close hz ch :=
+  ⟨runAll_sound c arr close hz tr, fun ⟨ch, h⟩ => h ▸ runCh_mem_runAll c arr close hz ch⟩
 
 end Mercure.Timed
